@@ -47,6 +47,7 @@ Variable LF : Z.
 Hypothesis HLF : 1 <= LF.
 Variables (s : store) (d : R.doc).
 Hypothesis II : Inv s.
+Hypothesis Pure : pure s.
 Hypothesis Rep : abs s = map RPid d.
 Hypothesis Dpos : ids_pos R.tid d.
 
@@ -64,7 +65,7 @@ Theorem link_insert_after ref ts : 0 < ref -> ids_pos R.tid ts -> NoDup (map R.t
   match R.st_insert_after ref ts d with
   | Ok d' => let s' := fst (insert_after LF s (Some (P ref)) (map RPid ts)) in
              insert_after LF s (Some (P ref)) (map RPid ts) = (s', Ok tt) /\ Inv s' /\
-             abs s' = map RPid d' /\ (forall u, txt s' u = txt s u)
+             abs s' = map RPid d' /\ (forall u, txt s' u = txt s u) /\ pure s'
   | Err e => e = ValueError /\ insert_after LF s (Some (P ref)) (map RPid ts) = (s, Err ValueError)
   end.
 Proof.
@@ -73,7 +74,7 @@ Proof.
   - destruct Sp as (Ed & Et & _). pose proof (guard_spec ts d) as G. pose proof Rep as Rep'. rewrite Ed in Rep'.
     assert (P ref = RPid t) as -> by (unfold Pid; rewrite Et; reflexivity).
     destruct (R.guard ts d).
-    + apply (bridge_insert_after R.tid LF HLF s II a t b ts Rep' (nodup_pid R.tid ts Tp ND)).
+    + apply (bridge_insert_after R.tid LF HLF s II Pure a t b ts Rep' (nodup_pid R.tid ts Tp ND)).
       apply fresh_of_guard; assumption.
     + split; [reflexivity|]. destruct G as (x & Hx & Hin).
       apply (bridge_insert_refuses R.tid LF s II a t b ts x Rep' Hx).
@@ -87,7 +88,7 @@ Theorem link_insert_before ref ts : 0 < ref -> ids_pos R.tid ts -> NoDup (map R.
   match R.st_insert_before ref ts d with
   | Ok d' => let s' := fst (insert_before LF s (Some (P ref)) (map RPid ts)) in
              insert_before LF s (Some (P ref)) (map RPid ts) = (s', Ok tt) /\ Inv s' /\
-             abs s' = map RPid d' /\ (forall u, txt s' u = txt s u)
+             abs s' = map RPid d' /\ (forall u, txt s' u = txt s u) /\ pure s'
   | Err e => e = ValueError /\ insert_before LF s (Some (P ref)) (map RPid ts) = (s, Err ValueError)
   end.
 Proof.
@@ -96,7 +97,7 @@ Proof.
   - destruct Sp as (Ed & Et & _). pose proof (guard_spec ts d) as G. pose proof Rep as Rep'. rewrite Ed in Rep'.
     assert (P ref = RPid t) as -> by (unfold Pid; rewrite Et; reflexivity).
     destruct (R.guard ts d).
-    + apply (bridge_insert_before R.tid LF HLF s II a t b ts Rep' (nodup_pid R.tid ts Tp ND)).
+    + apply (bridge_insert_before R.tid LF HLF s II Pure a t b ts Rep' (nodup_pid R.tid ts Tp ND)).
       apply fresh_of_guard; assumption.
     + split; [reflexivity|]. destruct G as (x & Hx & Hin).
       apply (bridge_insert_refuses R.tid LF s II a t b ts x Rep' Hx).
@@ -111,7 +112,7 @@ Theorem link_splice ts first last d' : ids_pos R.tid ts -> NoDup (map R.tid ts) 
   R.st_splice ts first last d = Ok d' ->
   let s' := fst (splice LF s (map RPid ts) (Some (P first)) (Some (P last))) in
   splice LF s (map RPid ts) (Some (P first)) (Some (P last)) = (s', Ok tt) /\ Inv s' /\
-  abs s' = map RPid d' /\ (forall u, txt s' u = txt s u).
+  abs s' = map RPid d' /\ (forall u, txt s' u = txt s u) /\ pure s'.
 Proof.
   intros Tp ND H. unfold R.st_splice in H. pose proof (rsplit_spec first d) as Sp.
   destruct (R.split_at first d) as [[[a t] b]|]; [|discriminate]. destruct Sp as (Ed & Et & _).
@@ -121,14 +122,14 @@ Proof.
   - destruct (R.guard ts d); [|discriminate]. injection H as <-.
     assert (P first = RPid t) as -> by (unfold Pid; rewrite Et; reflexivity).
     assert (abs s = map RPid (a ++ [t] ++ b)) as Rep' by (rewrite Rep, Ed; reflexivity).
-    apply (bridge_splice R.tid LF HLF s II a [t] b ts t t Rep'); [reflexivity|reflexivity|apply nodup_pid; assumption|].
+    apply (bridge_splice R.tid LF HLF s II Pure a [t] b ts t t Rep'); [reflexivity|reflexivity|apply nodup_pid; assumption|].
     intros x Hx. left. apply (fresh_of_guard ts Tp G x Hx).
   - pose proof (rsplit_spec last b) as Sl. destruct (R.split_at last b) as [[[m0 l] c]|]; [|discriminate].
     destruct Sl as (Eb & El & _). destruct (R.guard ts d); [|discriminate]. injection H as <-.
     assert (P last = RPid l) as -> by (unfold Pid; rewrite El; reflexivity).
     assert (abs s = map RPid (a ++ (t :: m0 ++ [l]) ++ c)) as Rep'.
     { rewrite Rep, Ed, Eb. f_equal. f_equal. cbn [app]. f_equal. rewrite <- app_assoc. reflexivity. }
-    apply (bridge_splice R.tid LF HLF s II a (t :: m0 ++ [l]) c ts t l Rep'); [reflexivity| |apply nodup_pid; assumption|].
+    apply (bridge_splice R.tid LF HLF s II Pure a (t :: m0 ++ [l]) c ts t l Rep'); [reflexivity| |apply nodup_pid; assumption|].
     + replace (length (t :: m0 ++ [l]) - 1)%nat with (S (length m0)) by (cbn [length]; rewrite app_length; cbn; lia).
       cbn [nth_error]. apply nth_error_app_mid.
     + intros x Hx. left. apply (fresh_of_guard ts Tp G x Hx).
@@ -137,7 +138,7 @@ Qed.
 Theorem link_remove first last d' : R.st_remove first last d = Ok d' ->
   let s' := fst (remove LF s (P first) (Some (P last))) in
   remove LF s (P first) (Some (P last)) = (s', Ok tt) /\ Inv s' /\
-  abs s' = map RPid d' /\ (forall u, txt s' u = txt s u).
+  abs s' = map RPid d' /\ (forall u, txt s' u = txt s u) /\ pure s'.
 Proof. intro H. exact (link_splice [] first last d' (Forall_nil _) (NoDup_nil _) H). Qed.
 
 (* a reference that is not in the document: both sides raise ValueError, nothing changes *)
